@@ -11,6 +11,9 @@ Leg S2C : TLC -simulate behaviours (wider bounds) are completed to closed scenar
           (b) projected onto composite operations and run by the REAL AsyncExecutor (on-error=continue) -> Composite ->
               RequestTiming -> raw-request / search / paginated-search runners against a scripted fake Elasticsearch (latencies,
               chunks, ConnectionTimeout / ApiError for a sub-request whose block raises in the behaviour), all clients in one loop.
+Wire leg: harness/wireleg.py - the REAL EsClientFactory.create_async() client (aiohttp trace hooks that call on_request_start /
+          on_request_end) against a scripted HTTP server on 127.0.0.1 in real time: several sequential / concurrent wire requests,
+          nested contexts, late and streamed bodies, timeouts and aborted connections; judged by TLC (specs/WireTiming).
 Leg C2S : every recorded execution (those of S2C and seeded random scripts / composite cases not derived from TLC: ties between
           instants, deeper trees, sleeps, connection limits, throttled requests) is validated by TLC against TraceReqContext.tla:
           L1 = the property clauses on the recorded state (+ what reached the sampler), L2 = each step is the transcription's.
@@ -20,7 +23,7 @@ import os
 import random
 
 from .. import reqctxsim as R
-from .. import tlc, tracecheck
+from .. import tlc, tracecheck, wireleg
 from ..core import Violation
 from ..tlaparse import parse_simulation_file, parse_state, parse_value
 
@@ -314,6 +317,8 @@ def run(ctx, out):
     rc = [dict(R.random_composite(random.Random(ctx.seed * 1000 + 500000 + i)), src="random") for i in range(250 if quick else 3000)]
     rtraces = run_cases(rc, out, "rndc", feats)
     out.sample({"source": "random composite", "clients": rc[0]["clients"], "recorded_samples": [e for e in rtraces[0]["ev"] if e["a"] == "Sample"][:3]})
+    # ---- wire leg: the real asynchronous client (aiohttp trace hooks of client/factory.py) against a loopback server, real time
+    wireleg.run_leg(ctx, out, "C18")
     out.extra["features_exercised"] = feats
     for need in ACTIONS + ["Sample", "chunked-end", "several-clients", "nested", "concurrent-children", "composite-with-sub-requests", "exit-by-exception", "composite-with-failed-sub-request"]:
         if not feats.get(need):
@@ -326,6 +331,8 @@ def run(ctx, out):
 def replay(ctx, case):
     from ..core import Outcome
 
+    if case.get("kind") == "wire":
+        return wireleg.replay(ctx, case, "C18")
     out = Outcome(ctx.pid)
     traces = run_cases([case], out, "replay")
     for e in traces[0]["ev"]:
